@@ -77,7 +77,7 @@ const SPIN_BOUND: u64 = 5_000;
 
 async fn drive(connect: &dyn Fn(ScriptIo) -> ConnFut, input: &[u8], mode: Mode) -> Out {
     let chooser = Rc::new(RefCell::new(Chooser::new(vec![])));
-    let opts = IoOpts { read_alts: false, read_faults: false, write_alts: false, flush_alts: false, shutdown_alts: false, every_offset: false };
+    let opts = IoOpts { read_alts: false, read_faults: false, write_alts: false, flush_alts: false, shutdown_alts: false, every_offset: false, buffered: false };
     let io = Rc::new(RefCell::new(IoState::new(chooser, opts)));
     let pieces: Vec<Vec<u8>> = mode.pieces(input).into_iter().filter(|p| !p.is_empty()).map(|p| p.to_vec()).collect();
     let mut next_piece = 0usize;
